@@ -31,7 +31,7 @@ FAMILIES = {
     "C03": [("opt", 2000, 40000)],
     "C04": [("pairs", 1500, 30000), ("mixed", 1000, 20000), ("circuit", 500, 8000)],
     "C07": [("core", 0, 0), ("pairs", 1500, 30000)],
-    "C08": [("core", 0, 0), ("pairs", 1500, 30000), ("circuit", 400, 8000)],
+    "C08": [("core", 0, 0), ("pairs", 1500, 30000), ("circuit", 400, 8000), ("sched", 900, 12000)],
     "C09": [("configs", 2000, 40000)],
     "C10": [("shaving", 1500, 30000)],
     "C17": [("mixed", 1500, 30000), ("configs", 800, 16000)],
